@@ -408,8 +408,13 @@ func (fr *Frame) applyContract(con *Contract, tgt callTarget, args [][]string, a
 	nb := vc.fresh("brk_call", SInt)
 	vc.assert(app(">=", nb, st.brk))
 	st.brk = nb
-	// results
+	// results (a postcondition `result == <parameter>` makes the result that very argument, syntactically)
 	res := fr.freshVal("res_"+short, resT)
+	if alias := resultAlias(con); alias != "" {
+		if v, ok := env.vars[alias]; ok && len(v.C) == len(res) {
+			res = v.C
+		}
+	}
 	fr.assumeTypeFacts(r, resT, res, st)
 	env.st = st
 	env.result = splitResults(fr.l(), resT, res)
@@ -540,6 +545,22 @@ func (fr *Frame) havocTarget(env *Env, e Expr, st *State) error {
 		fr.havocRange(st, v.Addr, v.T)
 		return nil
 	case ECall:
+		if gs, ok := fr.eng.cs.Ghosts[x.Fun]; ok && len(x.Args) == 1 {
+			// whole ghost row of the object
+			o, err := env.eval(x.Args[0])
+			if err != nil {
+				return err
+			}
+			rt := fr.l().specType(gs)
+			srt := Sort(string(fr.l().layout(rt)[0]) + "#" + x.Fun)
+			key := o.C[0]
+			if isIfaceT(o.T) && len(o.C) == 2 {
+				key = o.C[1]
+			}
+			row := vc.freshRaw("row_"+x.Fun, "(Array Int "+srt.elem()+")")
+			vc.setRow(st, srt, key, row)
+			return nil
+		}
 		if gs, ok := fr.eng.cs.Ghosts[x.Fun]; ok {
 			key, idx, srt, _, err := env.ghostLoc(x, gs)
 			if err != nil {
@@ -647,6 +668,33 @@ func (fr *Frame) callWriteSet(ws *writeSet, li *loopInfo, ci ssa.CallInstruction
 		}
 		all = append(all, c.Args...)
 		for _, a := range con.Assigns {
+			if gc, ok := a.E.(ECall); ok {
+				if gs, isGhost := fr.eng.cs.Ghosts[gc.Fun]; isGhost {
+					// ghost channel write: the whole row of the object (first argument) if it is loop invariant
+					rt := fr.l().specType(gs)
+					srt := Sort(string(fr.l().layout(rt)[0]) + "#" + gc.Fun)
+					done := false
+					if id, ok := gc.Args[0].(EIdent); ok {
+						for i, n := range names {
+							if (n == id.Name || (id.Name == "recv" && i == 0)) && i < len(all) && fr.definedOutside(fr.rootOf(all[i]), li) {
+								if _, have := fr.regs[fr.rootOf(all[i])]; have || isConstLike(fr.rootOf(all[i])) {
+									v := fr.val(all[i])
+									key := v[0]
+									if isIfaceT(all[i].Type()) && len(v) == 2 {
+										key = v[1]
+									}
+									ws.rows[srt] = append(ws.rows[srt], key)
+									done = true
+								}
+							}
+						}
+					}
+					if !done {
+						ws.sorts[srt] = true
+					}
+					continue
+				}
+			}
 			base := baseIdent(a.E)
 			found := false
 			for i, n := range names {
@@ -816,4 +864,38 @@ func (fr *Frame) callWritesOnlyRowsOrFresh(li *loopInfo, ci ssa.CallInstruction,
 		return true
 	}
 	return true
+}
+
+// resultAlias: the contract states `result == p` for a parameter p (first such conjunct)
+func resultAlias(con *Contract) string {
+	var find func(e Expr) string
+	find = func(e Expr) string {
+		b, ok := e.(EBin)
+		if !ok {
+			return ""
+		}
+		if b.Op == "&&" {
+			if s := find(b.L); s != "" {
+				return s
+			}
+			return find(b.R)
+		}
+		if b.Op == "==" {
+			l, lok := b.L.(EIdent)
+			r, rok := b.R.(EIdent)
+			if lok && rok && l.Name == "result" {
+				return r.Name
+			}
+			if lok && rok && r.Name == "result" {
+				return l.Name
+			}
+		}
+		return ""
+	}
+	for _, c := range con.Ensures {
+		if s := find(c.E); s != "" {
+			return s
+		}
+	}
+	return ""
 }
